@@ -44,6 +44,23 @@ THEOREMS (all proved, all "Closed under the global context"; fs, cwd, base, loc,
   (load tie: spellings include model files that are themselves symlinks — into a sibling directory, through a
    symlinked directory, chains, absolute target — with a same-named data file of distinct content in each directory;
    the base must be the directory holding the ENTRY that was named, and the bytes read must be that directory's.)
+  C10_call_structure_sound / C10_reading_methods_checked / C10_every_read_path_checked   (deepening round)
+                                "every read entry point goes through the check" as a theorem about the call structure
+                                EXTRACTED FROM THE SOURCE on every run (generate(): fail-closed ast extraction into
+                                Gen/C10Gen.v of every ExternalTensor method that can reach the data file and of the
+                                external_data helpers; statement language SCheck/SOpen/SMut/SCall/branches/loops,
+                                C10/CallModel.v).  The checker `flow` is proved sound for ALL statement trees and ALL
+                                runs (CallProofs.flow_sound: loops unbounded, exceptions anywhere): every open is
+                                dominated in the same call by a passing check with no store to base_dir/location in
+                                between; the extracted methods are accepted by vm_compute.  A new unchecked fast path
+                                breaks this obligation (r2m3: m_tobytes rejected by the checker; r4m3: np.fromfile(
+                                tensor.path) rejected by the extraction).  Tied to the implementation: the C/O events of
+                                every observed call must be a trace of the extracted method (`accepts`, in Coq).
+  C10_load_traversal_complete   wherever a tensor can sit in a model (independent inductive `occ_model`: initializers of the
+                                main graph / nested subgraphs at any depth, TENSOR/TENSORS attributes of any node, main
+                                graph or model-local function) load()'s traversal (model of _all_tensors +
+                                RecursiveGraphIterator + the functions loop, C10/Traverse.v) gives it the base directory.
+                                Tied by generated nested models (names repeat on purpose) saved, ir.load-ed and walked.
   C10_load_sets_base            every tensor of a loaded model (graph AND model-local functions) gets
                                 dirname(p) or "." — never "" — for every spelling p;
   C10_load_base_is_model_dir    and the kernel resolves that string to the directory holding the model file's
@@ -64,6 +81,9 @@ READINGS of the English (weaker reading taken where ambiguous)
     succeeds only on regular files.  FIFOs/devices under the model directory are outside the alphabet of the
     property's quantifier and not modelled (tofile would read from them).
   * inside = non-strict component prefix of the kernel-resolved base.
+  * the kernel's symlink bound kf is a universally quantified parameter of every theorem (any nesting bound, incl. 40).
+  * names: the model's strings are code points; worlds contain non-ASCII and case-variant names (DA vs da, dé, a
+    fullwidth letter); '/' never occurs inside a multi-byte UTF-8 sequence, so splitting agrees with the kernel's.
   * a base_dir the kernel cannot resolve (non-existent component followed by "..", a file, ...): with a relative
     location nothing can be opened (C10_contained_relative_loc); with an absolute location the code compares
     against os.path.realpath(base_dir) (non-strict).  The oracle takes that as "the resolved base" in this corner
@@ -133,8 +153,8 @@ from harness.common import REPO, cN, clist, copt
 KF = 45      # kernel symlink nesting bound used by the model (Linux: 40 links per walk)
 PF = 1500    # budget of the model's realpath walk (iterations + recursion)
 
-NAMES_D = ["da", "db", "dab", "dc", "sub"]
-NAMES_F = ["f1", "f2", "f3", "wt.bin"]
+NAMES_D = ["da", "db", "dab", "dc", "sub", "DA", "d\u00e9"]
+NAMES_F = ["f1", "f2", "f3", "wt.bin", "F1", "\uff461", "w \u03b2.bin"]
 NAMES_L = ["l1", "l2", "l3", "l4", "ldir"]
 W = "{W}"   # placeholder of the world's absolute path inside plans / cases
 
@@ -183,6 +203,11 @@ def gen_world(rng) -> list:
     add_file("da", "f1", 8)
     add_dir("da", "sub")
     add_file("da/sub", "f2", 5)
+    # names that differ only by case / are not ASCII: a case-folding or byte/str confusion would merge them
+    add_dir("", "DA")
+    add_file("DA", "f1", 8)
+    add_dir("da", "d\u00e9")
+    add_file("da/d\u00e9", "F1", 4)
     add_dir("", "dz")
     taken.add("dz/f1")
     plan.append(["symlink", "dz/f1", "../outside/secret"])
@@ -355,8 +380,10 @@ class Snapshot:
 
 
 def s_lit(x: str) -> str:
-    assert all(32 <= ord(c) < 127 and c not in '"\\' for c in x), x
-    return f'(s "{x}")'
+    if all(32 <= ord(c) < 127 and c not in '"\\' for c in x):
+        return f'(s "{x}")'
+    # non-ASCII (or quote/backslash): the model's strings are code points, written out as numbers
+    return "(" + clist(cN(ord(c)) for c in x) + " : str)"
 
 
 def bytes_lit(b: bytes) -> str:
@@ -436,7 +463,8 @@ def gen_loc(rng, base_dir_rel: str, world_dirs, world_files, world_links) -> str
             out.append(c)
         s = "/".join(out)
     elif k < 0.55:     # escapes
-        s = rng.choice(["../outside/secret", "../../outside/secret", "../dab/f1", "../da/f1", "../" * (depth + 6) + "nonexistent_zz/hostname",
+        s = rng.choice(["../outside/secret", "../../outside/secret", "../dab/f1", "../da/f1", "../DA/f1", "d\u00e9/F1", "d\u00e9/f1",
+                        "D\u00c9/F1", "../Da/f1", "../" * (depth + 6) + "nonexistent_zz/hostname",
                         "sub/../../outside/secret", "..", "../", ".", "", "../" + (base_dir_rel or "da").split("/")[-1] + "/f1",
                         "../" + (base_dir_rel or "da").split("/")[-1] + "b/f1"])
     elif k < 0.68:     # absolute
@@ -1377,6 +1405,10 @@ def replay(rp: dict) -> int:
             print(json.dumps({"case": rp["case"], "observed": [[o["events"], [o["res"][0], repr(o["res"][1])]] for o in obs],
                               "failures": bad}, indent=1, default=str))
             return 1 if bad else 0
+        if kind == "traverse":
+            bad = oracle_traverse(rp["spec"], run_traverse(rp["spec"], root))
+            print(json.dumps({"spec": rp["spec"], "failures": bad}, indent=1))
+            return 1 if bad else 0
         if kind == "load":
             bad = replay_load_case(rp, root)
             print(json.dumps({"case": {k: rp[k] for k in ("dir", "cwd", "spelling", "escape")}, "failures": bad}, indent=1))
@@ -1411,7 +1443,6 @@ def run(ck) -> None:
                            "st_nlink / open (i.e. reached symlink, hard-link or kernel resolution), or a load() spelling")
     generate(ck)
     ck.prove()
-    ck.prove("C10/Calls")
     tracer = Tracer()
     tracer.install()
     ensure_audit()
@@ -1423,7 +1454,7 @@ def run(ck) -> None:
 
 def _run(ck, tracer: Tracer) -> None:
     os.makedirs(os.path.join(ck.scratch, "m"), exist_ok=True)    # private copies of worlds for world-changing histories
-    n_worlds = 12 if not ck.thorough else 400
+    n_worlds = 10 if not ck.thorough else 300
     per_world = 30 if not ck.thorough else 45
     oracle_fail = []          # (item, bad)
     plans = {}
@@ -1481,6 +1512,8 @@ def _run(ck, tracer: Tracer) -> None:
     lroot, lsnap, lrows, lfail, nload = load_tie(ck, 0)
     batch.append((widx, lroot, lsnap, [], lrows, []))
     batches.append(batch)
+    # 3b. load(): which tensors get the base directory (C10/Traverse.v)
+    traversal_tie(ck)
     # 4. the model, inside Coq
     ntraces = 0
     import concurrent.futures as cf
@@ -1851,3 +1884,285 @@ def generate(ck) -> bool:
         return False
     ck.gen("C10Gen", text)
     return True
+
+
+# =========================================================================== load() traversal (C10/Traverse.v)
+
+def gen_tree(rng, depth=0, counter=None) -> dict:
+    """A graph spec: {"inits": [tensor], "nodes": [[attr...]]}; tensor = {"id", "ext", "name"}."""
+    counter = counter if counter is not None else [0]
+
+    def tensor(init=False):
+        counter[0] += 1
+        return {"id": counter[0], "ext": rng.random() < 0.75,
+                "name": f"i{counter[0]}" if init else rng.choice(["t0", "t1", "t2", f"u{counter[0]}"])}   # names repeat on purpose
+    g = {"inits": [tensor(True) for _ in range(rng.randrange(0, 3))], "nodes": []}
+    for _ in range(rng.randrange(0, 4 if depth < 2 else 2)):
+        attrs = []
+        for _ in range(rng.randrange(0, 4)):
+            k = rng.random()
+            if k < 0.3:
+                attrs.append(["t", tensor()])
+            elif k < 0.45:
+                attrs.append(["ts", [tensor() for _ in range(rng.randrange(0, 3))]])
+            elif k < 0.7 and depth < 3:
+                attrs.append(["g", gen_tree(rng, depth + 1, counter)])
+            elif k < 0.85 and depth < 3:
+                attrs.append(["gs", [gen_tree(rng, depth + 1, counter) for _ in range(rng.randrange(0, 3))]])
+            else:
+                attrs.append(["i"])
+        g["nodes"].append(attrs)
+    return g
+
+
+def gen_model_spec(rng) -> dict:
+    counter = [0]
+    spec = {"graph": gen_tree(rng, 0, counter), "funcs": []}
+    for _ in range(rng.randrange(0, 3)):
+        spec["funcs"].append(gen_tree(rng, 1, counter)["nodes"])
+    return spec
+
+
+def _tensor_proto(t: dict):
+    from onnx import TensorProto
+    p = TensorProto()
+    p.name = t["name"]
+    p.doc_string = str(t["id"])
+    p.data_type = TensorProto.UINT8
+    p.dims.extend([1])
+    if t["ext"]:
+        p.data_location = TensorProto.EXTERNAL
+        e = p.external_data.add()
+        e.key, e.value = "location", "w.bin"
+    else:
+        p.raw_data = b"\x01"
+    return p
+
+
+def _graph_proto(g: dict, name: str, ctr: list):
+    from onnx import helper
+    nodes = []
+    for attrs in g["nodes"]:
+        ctr[0] += 1
+        kw = {}
+        for j, a in enumerate(attrs):
+            if a[0] == "t":
+                kw[f"a{j}"] = _tensor_proto(a[1])
+            elif a[0] == "ts":
+                if a[1]:
+                    kw[f"a{j}"] = [_tensor_proto(x) for x in a[1]]
+            elif a[0] == "g":
+                kw[f"a{j}"] = _graph_proto(a[1], f"{name}_g{ctr[0]}_{j}", ctr)
+            elif a[0] == "gs":
+                if a[1]:
+                    kw[f"a{j}"] = [_graph_proto(x, f"{name}_gs{ctr[0]}_{j}_{k}", ctr) for k, x in enumerate(a[1])]
+            else:
+                kw[f"a{j}"] = 1
+        nodes.append(helper.make_node("Xop", [], [f"o{ctr[0]}"], **kw))
+    return helper.make_graph(nodes, name, [], [], initializer=[_tensor_proto(t) for t in g["inits"]])
+
+
+def run_traverse(spec: dict, root: str) -> dict:
+    """Save the generated model, ir.load it, and look at every tensor with an independent walk of the public IR."""
+    import onnx
+    from onnx import helper
+    import onnx_ir as ir
+    shutil.rmtree(root, ignore_errors=True)
+    os.makedirs(os.path.join(root, "md"))
+    with open(os.path.join(root, "md", "w.bin"), "wb") as f:
+        f.write(b"\x07")
+    ctr = [0]
+    g = _graph_proto(spec["graph"], "main", ctr)
+    funcs = []
+    for i, body in enumerate(spec["funcs"]):
+        fg = _graph_proto({"inits": [], "nodes": body}, f"f{i}", ctr)
+        funcs.append(helper.make_function("dom", f"F{i}", [], [], list(fg.node), [helper.make_opsetid("", 18)]))
+    m = helper.make_model(g, functions=funcs, opset_imports=[helper.make_opsetid("", 18), helper.make_opsetid("dom", 1)])
+    path = os.path.join(root, "md", "m.onnx")
+    onnx.save(m, path)
+    old = os.getcwd()
+    os.chdir(root)
+    try:
+        model = ir.load("md/m.onnx")
+        want = os.stat("md")
+        seen = {}
+
+        def vt(t):
+            if t is None:
+                return
+            tid = int(t.doc_string) if t.doc_string else -1
+            ext = isinstance(t, ir.ExternalTensor)
+            ok = False
+            if ext and t.base_dir:
+                try:
+                    st = os.stat(os.fspath(t.base_dir))
+                    ok = (st.st_dev, st.st_ino) == (want.st_dev, want.st_ino)
+                except OSError:
+                    ok = False
+            seen[tid] = {"ext": ext, "base": os.fspath(t.base_dir) if ext else None, "ok": ok}
+
+        def vg(gr):
+            for v in gr.initializers.values():
+                vt(v.const_value)
+            for n in gr:
+                vn(n)
+
+        def vn(n):
+            for a in n.attributes.values():
+                if a.type == ir.AttributeType.TENSOR:
+                    vt(a.value)
+                elif a.type == ir.AttributeType.TENSORS:
+                    for x in a.value:
+                        vt(x)
+                elif a.type == ir.AttributeType.GRAPH:
+                    vg(a.value)
+                elif a.type == ir.AttributeType.GRAPHS:
+                    for x in a.value:
+                        vg(x)
+        vg(model.graph)
+        for f in model.functions.values():
+            for n in f:
+                vn(n)
+    finally:
+        os.chdir(old)
+    return seen
+
+
+def spec_tensors(spec: dict) -> list:
+    out = []
+
+    def g(gr):
+        out.extend(gr["inits"])
+        for attrs in gr["nodes"]:
+            n(attrs)
+
+    def n(attrs):
+        for a in attrs:
+            if a[0] == "t":
+                out.append(a[1])
+            elif a[0] == "ts":
+                out.extend(a[1])
+            elif a[0] == "g":
+                g(a[1])
+            elif a[0] == "gs":
+                for x in a[1]:
+                    g(x)
+    g(spec["graph"])
+    for body in spec["funcs"]:
+        for attrs in body:
+            n(attrs)
+    return out
+
+
+def oracle_traverse(spec: dict, seen: dict) -> list:
+    bad = []
+    for t in spec_tensors(spec):
+        o = seen.get(t["id"])
+        if o is None:
+            bad.append(f"tensor {t['id']} ({t['name']}) not found in the loaded model")
+        elif t["ext"] and not o["ok"]:
+            bad.append(f"external tensor {t['id']} ({t['name']}): base_dir {o['base']!r} is not the model's directory after load")
+    return bad
+
+
+def _c_tens(t):
+    return f"({cN(t['id'])}, {'true' if t['ext'] else 'false'})"
+
+
+def _c_graph(g) -> str:
+    return f"(Graph {clist(_c_tens(t) for t in g['inits'])} {clist(_c_tnode(n) for n in g['nodes'])})"
+
+
+def _c_tnode(attrs) -> str:
+    out = []
+    for a in attrs:
+        if a[0] == "t":
+            out.append(f"ATensor {_c_tens(a[1])}")
+        elif a[0] == "ts":
+            out.append(f"ATensors {clist(_c_tens(x) for x in a[1])}" if a[1] else "AOther")   # an empty list attribute is not emitted
+        elif a[0] == "g":
+            out.append(f"AGraph {_c_graph(a[1])}")
+        elif a[0] == "gs":
+            out.append(f"AGraphs {clist(_c_graph(x) for x in a[1])}" if a[1] else "AOther")
+        else:
+            out.append("AOther")
+    return f"(Node {clist(out)})"
+
+
+def shrink_traverse(spec: dict, root: str) -> dict:
+    def fails(sp):
+        try:
+            return bool(oracle_traverse(sp, run_traverse(sp, root)))
+        except Exception:  # noqa: BLE001
+            return False
+    cur = json.loads(json.dumps(spec))
+    changed = True
+    while changed:
+        changed = False
+        cands = []
+        for i in range(len(cur["funcs"])):
+            c = json.loads(json.dumps(cur)); del c["funcs"][i]; cands.append(c)
+        for i in range(len(cur["graph"]["nodes"])):
+            c = json.loads(json.dumps(cur)); del c["graph"]["nodes"][i]; cands.append(c)
+        for i in range(len(cur["graph"]["inits"])):
+            c = json.loads(json.dumps(cur)); del c["graph"]["inits"][i]; cands.append(c)
+        for i, n in enumerate(cur["graph"]["nodes"]):
+            for j in range(len(n)):
+                c = json.loads(json.dumps(cur)); del c["graph"]["nodes"][i][j]; cands.append(c)
+        for c in cands:
+            if fails(c):
+                cur, changed = c, True
+                break
+    return cur
+
+
+def traversal_tie(ck) -> None:
+    n = 40 if not ck.thorough else 600
+    root = os.path.join(ck.scratch, "trav")
+    rows, specs = [], []
+    fail = None
+    for i in range(n):
+        spec = gen_model_spec(ck.rng)
+        seen = run_traverse(spec, root)
+        ck.count()
+        bad = oracle_traverse(spec, seen)
+        if bad and fail is None:
+            fail = (spec, bad)
+        mterm = f"(mkModel {_c_graph(spec['graph'])} {clist(clist(_c_tnode(a) for a in body) for body in spec['funcs'])})"
+        for t in spec_tensors(spec):
+            o = seen.get(t["id"], {"ok": False})
+            rows.append((len(specs), t, bool(o["ok"])))
+            ck.hist("traversal_positions", "external" if t["ext"] else "inline")
+        specs.append((spec, mterm))
+        if spec["funcs"] or any(a[0] in ("g", "gs") for nn in spec["graph"]["nodes"] for a in nn):
+            ck.nontriv(("traverse", json.dumps(spec)))
+    text = ("From Coq Require Import NArith List Bool.\nFrom IRV Require Import Base.Exn C10.Traverse.\nImport ListNotations.\n" +
+            "\n".join(f"Definition tm{i} : model := {m}." for i, (_, m) in enumerate(specs)) + "\n" +
+            "Definition trows : list (model * tens * bool) := " +
+            clist(f"(tm{i}, {_c_tens(t)}, {'true' if ok else 'false'})" for i, t, ok in rows).replace("; (", ";\n (") + ".\n" +
+            "Eval vm_compute in (failing (fun r => Bool.eqb (gets_base (fst (fst r)) (snd (fst r))) (snd r)) trows).\n")
+    try:
+        failing = ck.coq_failing(text, "cases_traverse")
+    except RuntimeError as e:
+        failing = []
+        ck.broken("correspondence:case-file-traverse", str(e))
+    ck.hist("function_rows", "load traversal (tensor positions)", len(rows))
+    for j in failing[:3]:
+        i, t, ok = rows[j]
+        ck.broken("correspondence:load-traversal", json.dumps({"kind": "traverse", "spec": specs[i][0], "tensor": t, "impl_got_base": ok}))
+    if fail is not None:
+        small = shrink_traverse(fail[0], root)
+        ck.violation({"kind": "traverse", "spec": small, "failures": oracle_traverse(small, run_traverse(small, root)),
+                      "broken": ck.broken_items})
+    elif failing:
+        # the model disagrees but the first pass saw no failing tensor: look harder
+        for _ in range(200):
+            spec = gen_model_spec(ck.rng)
+            bad = oracle_traverse(spec, run_traverse(spec, root))
+            ck.count()
+            if bad:
+                small = shrink_traverse(spec, root)
+                ck.violation({"kind": "traverse", "spec": small, "failures": oracle_traverse(small, run_traverse(small, root)),
+                              "broken": ck.broken_items})
+                break
+    shutil.rmtree(root, ignore_errors=True)
